@@ -27,6 +27,11 @@ func evalErrSexp(err error) *Sexp {
 }
 
 // (case id evalseq <opt|noopt> (frags <hex>...) <probe hex> <module hex>...)
+// arguments the host gives to a session (NewEval) and to the run of the concatenated script
+func hostArgs() []ugo.Object {
+	return []ugo.Object{ugo.Int(11), ugo.String("s2"), ugo.Array{ugo.Int(1), ugo.Int(2)}}
+}
+
 // Runs the fragments in one Eval session and, for every prefix, the concatenation as one script.
 func runEvalSeq(args []*Sexp) *Sexp {
 	noopt := args[0].Atom == "noopt"
@@ -48,7 +53,7 @@ func runEvalSeq(args []*Sexp) *Sexp {
 	defer func() { ugo.PrintWriter = old }()
 
 	evalRes := L(A("eval"))
-	ev := ugo.NewEval(ugo.CompilerOptions{ModuleMap: mkmm(), NoOptimize: noopt}, ugo.Map{"g0": ugo.Int(0)})
+	ev := ugo.NewEval(ugo.CompilerOptions{ModuleMap: mkmm(), NoOptimize: noopt}, ugo.Map{"g0": ugo.Int(0)}, hostArgs()...)
 	failed := false
 	runFrag := func(src string) *Sexp {
 		out.Reset()
@@ -92,7 +97,7 @@ func runEvalSeq(args []*Sexp) *Sexp {
 			return L(evalErrSexp(err), hexAtom(nil))
 		}
 		vm := ugo.NewVM(bc).SetRecover(true)
-		res := runVM(vm, ugo.Map{"g0": ugo.Int(0)})
+		res := runVM(vm, ugo.Map{"g0": ugo.Int(0)}, hostArgs()...)
 		return L(res, hexAtom(out.Bytes()))
 	}
 	prefix := ""
@@ -142,7 +147,7 @@ func runEvalFailState(args []*Sexp) *Sexp {
 	ugo.PrintWriter = &out
 	defer func() { ugo.PrintWriter = old }()
 	session := func(withFail bool) *Sexp {
-		ev := ugo.NewEval(ugo.CompilerOptions{ModuleMap: mkmm(), NoOptimize: noopt}, ugo.Map{"g0": ugo.Int(0)})
+		ev := ugo.NewEval(ugo.CompilerOptions{ModuleMap: mkmm(), NoOptimize: noopt}, ugo.Map{"g0": ugo.Int(0)}, hostArgs()...)
 		run := func(src string) (v ugo.Object, err error) {
 			defer func() {
 				if r := recover(); r != nil {
@@ -175,15 +180,19 @@ func runEvalFailState(args []*Sexp) *Sexp {
 		}
 		return L(A("ok"), SexpOfValue(v))
 	}
-	withFail := session(true)
+	// the fragments must run by themselves; the probe may then read every declared variable
 	without := session(false)
+	if without.Head() == "skip" {
+		return L(A("evalfailstate"), without, without, L(A("skip")))
+	}
+	withFail := session(true)
 	src := ""
 	for _, f := range frags {
 		src += unreturnLast(f) + "\n"
 	}
 	batch := L(A("skip"))
 	if bc, err, pan := compileSrc([]byte(src+probe+"\n"), ugo.CompilerOptions{ModuleMap: mkmm(), NoOptimize: noopt}); err == nil && pan == nil {
-		batch = runVM(ugo.NewVM(bc).SetRecover(true), ugo.Map{"g0": ugo.Int(0)})
+		batch = runVM(ugo.NewVM(bc).SetRecover(true), ugo.Map{"g0": ugo.Int(0)}, hostArgs()...)
 	}
 	return L(A("evalfailstate"), withFail, without, batch)
 }
